@@ -76,6 +76,16 @@ fn expr(depth: u32) -> BoxedStrategy<Expr> {
         (b(inner.clone()), inner.clone(), inner.clone()).prop_map(|(e, x, y)| Expr::Filter(e, "replace".into(), vec![Arg::Pos(x), Arg::Pos(y)])),
         (inner.clone(), inner.clone()).prop_map(|(x, y)| Expr::Call(Box::new(Expr::var("dict")), vec![Arg::Kw("a".into(), x), Arg::Kw("b".into(), y)])),
         (inner.clone(), inner.clone()).prop_map(|(x, y)| Expr::Call(Box::new(Expr::var("range")), vec![Arg::Pos(x), Arg::Pos(y)])),
+        // keyword arguments whose names repeat: the last one given wins, however the values are written
+        prop::collection::vec((crate::runner::one_of(&["a", "b", "a", "c"]), inner.clone()), 2..5).prop_map(|kws| Expr::Call(
+            Box::new(Expr::var("dict")),
+            kws.into_iter().map(|(k, v)| Arg::Kw(k.to_string(), v)).collect()
+        )),
+        (prop::collection::vec(inner.clone(), 0..4), prop::collection::vec((crate::runner::one_of(&["reverse", "case_sensitive", "reverse"]), inner.clone()), 2..4)).prop_map(|(l, kws)| Expr::Filter(
+            Box::new(Expr::List(l)),
+            "sort".into(),
+            kws.into_iter().map(|(k, v)| Arg::Kw(k.to_string(), v)).collect()
+        )),
         b(inner.clone()).prop_map(|e| Expr::Filter(e, "string".into(), vec![])),
         b(inner.clone()).prop_map(|e| Expr::Filter(e, "length".into(), vec![])),
         b(inner.clone()).prop_map(|e| Expr::Filter(e, "abs".into(), vec![])),
